@@ -588,9 +588,7 @@ func (t *TriBandDense) SolveTo(dst *Dense, trans bool, b Matrix) error {
 			dst.Copy(work)
 		}
 	} else {
-		if rm, ok := bU.(RawMatrixer); ok {
-			dst.checkOverlap(rm.RawMatrix())
-		}
+		dst.checkOverlapMatrix(bU)
 		dst.Copy(b)
 	}
 
